@@ -1072,8 +1072,15 @@ def close_figures():
 
 def fam_traditional(ctx, rng):
     try:
-        obj, ckind = histories.build_traditional(rng, n_curves=int(rng.integers(2, 21)), n_freq=int(rng.choice([16, 32, 64])))
+        many = ctx.every(181, 3)              # costly: a long recording (hundreds to more than a thousand windows), ~3 per quick run
+        nc = int(rng.choice([520, 750, 1300])) if many else int(rng.integers(2, 21))
+        obj, ckind = histories.build_traditional(rng, n_curves=nc, n_freq=16 if many else int(rng.choice([16, 32, 64])))
         steps = []
+        if many:
+            for steps in histories.random_history(rng, obj, n_steps=2):
+                pass
+            battery(ctx, rng, obj, "traditional", steps, force=["single", "table"])
+            return
         n = battery(ctx, rng, obj, "traditional", steps) if rng.random() < 0.4 else 0
         for steps in histories.random_history(rng, obj, n_steps=int(rng.integers(1, 5))):
             if n < 3 and rng.random() < 0.4:
@@ -1177,7 +1184,14 @@ def fam_no_peak_windows(ctx, rng):
         close_figures()
 
 
+def or_large(fn):
+    def run(ctx, rng):
+        return fam_traditional(ctx, rng) if (ctx._idx is not None and ctx._idx % 181 == 3) else fn(ctx, rng)
+    return run
+
+
 FAMILIES = [("traditional-history", fam_traditional), ("recordings-pre-and-post", fam_recordings),
             ("azimuthal-history", fam_azimuthal), ("diffuse-field", fam_diffuse),
             ("windows-without-peak-in-narrow-range", fam_no_peak_windows), ("azimuthal-history-2", fam_azimuthal),
             ("recordings-pre-and-post-2", fam_recordings), ("traditional-history-2", fam_traditional)]
+FAMILIES = [(n, or_large(f)) for n, f in FAMILIES]
